@@ -172,7 +172,7 @@ def manual_submitter_tasks(oracles, budget, graphs):
     return tasks
 
 
-def user_round_tasks(oracles, budget, graphs, params=None):
+def user_round_tasks(oracles, budget, graphs, params=None, heavy_too=False):
     """A user runs try-submit-jobs by hand at ANY point of the submission (not only when it is idle),
     from the submitting host and from another host."""
     tasks = []
@@ -183,15 +183,17 @@ def user_round_tasks(oracles, budget, graphs, params=None):
             for host in ("login1", "login7"):
                 actors = [dict(name="usr", argv=["jade", "try-submit-jobs", "{out}"], host=host, guard="submitted"),
                           rec_actor(n)]
-                sc = mk_scen(bb, gkw, actors=actors, free_at_poll=True)
+                # at budget 0 leaving a polling node is free (otherwise nothing could overlap with the user's round);
+                # with a preemption budget the overlap is paid from it
+                sc = mk_scen(bb, gkw, actors=actors, free_at_poll=(budget[0] == 0))
                 t = dict(id=f"usr-{g}-{tag}-{host}-b{budget[0]}", scen=sc, oracles=["Obs"] + oracles,
                          budget=budget, cls="user-round+" + _cls(bb, gkw))
                 heavy = gkw.get("max_nodes") is None and sum(1 for l in bb if not l) >= 3
-                if heavy:
+                if heavy and not heavy_too:
+                    continue  # 3+ batches in flight with a free-start actor and free-at-poll: thorough only
+                if heavy or (budget[0] >= 1 and len(bb) >= 2 and gkw.get("max_nodes") is None):
                     t["weight"] = 6
-                    tasks += shard([t], 12)
-                else:
-                    tasks.append(t)
+                tasks.append(t)
     return tasks
 
 
@@ -230,7 +232,7 @@ def c01(tier):
         tasks = input_grid_tasks(["C01"], ns=(1, 2, 3))
         tasks += input_grid_tasks(["C01"], ns=(4,), two_groups=False, max_nodes=(1, None), caps=(3,))
         tasks += rep_tasks(["C01"], (2, 0))
-        tasks += user_round_tasks(["C01"], (1, 0), ["indep3", "indep4", "fork", "twocomp"])
+        tasks += user_round_tasks(["C01"], (1, 0), ["indep3", "fork", "twocomp"], heavy_too=True)
         tasks += outcome_tasks(["C01"], ns=(2, 3), params=C03_PARAMS[:5])
         tasks += c01_refusal_tasks(tier)
         tasks += rep_tasks(["C01"], (1, 0), graphs=["chain3", "fork", "diamond", "chain4"], exit_sets=fail_sets, cancel_sets=flag_sets)
@@ -467,7 +469,7 @@ def _c0304(prop, tier):
         tasks += outcome_tasks([prop], ns=(2, 3), codes=(0, 2, 255), params=C03_PARAMS[:2])
         tasks += rep_tasks([prop], (2, 0), params=REP_PARAMS, exit_sets=fail_sets, cancel_sets=flag_sets)
         tasks += user_round_tasks([prop], (2, 0), ["pair", "chain2"], params=[("sz1-mxN", dict(size=1, max_nodes=None))])
-        tasks += user_round_tasks([prop], (1, 0), ["indep3", "fork", "chain3"])
+        tasks += user_round_tasks([prop], (1, 0), ["indep3", "fork", "chain3"], heavy_too=True)
         tasks += manual_submitter_tasks([prop], (1, 0), ["pair", "chain2", "fork", "indep3"])
         bounds = "as quick plus exit codes {0,2,255}; all REP graphs x single failures x flags at 2 preemptions"
     tasks += resub_slice_tasks([prop + "R"], tier, prop.lower())
